@@ -1,7 +1,9 @@
 (* C16 -- Stream pipeline stages preserve the transfer sequence under any back-pressure.
    Machines: StreamDefs.v (transcription of scl/stream/utils.h: regDownstream, regDownstreamBlocking,
-   regReady, regDecouple, delay, stall, extendWidth, reduceWidth and their sequential composition; tied
-   to the real scl stages by checks/C16.py on every run).  strm::fifo is C15's machine and is treated
+   regReady, regDecouple, delay, stall, extendWidth, reduceWidth, and of scl/stream/Packet.h:
+   widthExtend, widthReduce, matchWidth for streams without Empty/EmptyBits, and their sequential
+   composition; tied to the real scl stages by checks/C16.py on every run).  Streams that carry
+   EmptyBits are covered by the check's packet oracle only (differential, no theorem).  strm::fifo is C15's machine and is treated
    here as a black box (list oracle in the check only).
    Proofs: StreamSpec.v StreamCompose.v StreamStages.v StreamHold.v StreamChain.v StreamLive.v
    StreamRefute.v StreamTop.v.
@@ -14,7 +16,7 @@
    stage's input / output; [offin e]/[offout e] = the beat on offer in that cycle; [holdW w] = on wire w a
    beat that is valid and not accepted is offered unchanged in the next cycle; [prefix]. *)
 From Coq Require Import List NArith Bool Arith Lia.
-From Gatery Require Import StreamDefs StreamSpec StreamCompose StreamStages StreamHold StreamChain StreamLive StreamRefute StreamTop.
+From Gatery Require Import StreamDefs StreamSpec StreamCompose StreamStages StreamHold StreamPacket StreamChain StreamLive StreamRefute StreamTop.
 Import ListNotations.
 
 (* ---------------------------------------------------------------- stage_transfers, register stages *)
@@ -138,6 +140,92 @@ Theorem extendWidth_unaligned_eop_refuted :
   Tout (trace (extendS 2) extend_eop_witness) = [ ([1%N; 2%N], false, 4%N) ].
 Proof. exact extend_unaligned_eop_w. Qed.
 Print Assumptions extendWidth_unaligned_eop_refuted.
+
+
+(* ---------------------------------------------------------------- Packet.h widthExtend / widthReduce / matchWidth *)
+(* (streams without Empty/EmptyBits; the chain theorems stage_transfers* / stage_hold* below cover
+   DPExtend / DPReduce inside arbitrary chains as well) *)
+
+(* widthExtend ratio r of m-digit beats: delivered = ppack m r accepted, exactly and unconditionally.
+   ppack replays the slot register: a group ends after r beats or at eop, the record carries the
+   slots (those above a short group keep their old contents), eop and meta of the closing beat *)
+Theorem widthExtend_transfers : forall m r cs,
+  Tout (trace (pextendS m r) cs) = ppack m r (Tin (trace (pextendS m r) cs)).
+Proof. exact widthExtend_transfers_l. Qed.
+Print Assumptions widthExtend_transfers.
+
+(* packet boundaries stay attached: the delivered records that carry eop are, in order, exactly the
+   accepted beats that carried eop (with their meta word) -- no eop is dropped or invented,
+   whatever the packet lengths (contrast extendWidth_unaligned_eop_refuted) *)
+Theorem widthExtend_keeps_packet_boundaries : forall m r cs,
+  map xmeta (filter xeop (Tout (trace (pextendS m r) cs))) = map xmeta (filter xeop (Tin (trace (pextendS m r) cs))).
+Proof. exact widthExtend_keeps_packet_boundaries_l. Qed.
+Print Assumptions widthExtend_keeps_packet_boundaries.
+
+Theorem widthExtend_hold : forall m r cs,
+  holdW (inW (trace (pextendS m r) cs)) -> holdW (outW (trace (pextendS m r) cs)).
+Proof. exact widthExtend_hold_l. Qed.
+Print Assumptions widthExtend_hold.
+
+Example widthExtend_short_packet :
+  (* a one-beat packet, then a two-beat packet, ratio 2: the first wide beat has an undefined upper slot (XD) *)
+  let b x e := mkBeat true [x] e 1%N in
+  let cs := [mkCyc [] (b 7%N true) true; mkCyc [] (b 1%N false) true; mkCyc [] (b 2%N true) true] in
+  Tout (trace (pextendS 1 2) cs) = [([7%N; XD], true, 1%N); ([1%N; 2%N], true, 1%N)].
+Proof. vm_compute. reflexivity. Qed.
+
+(* widthReduce ratio r, PRODUCER-HOLD HYPOTHESIS: its run is event-for-event the run of utils.h
+   reduceWidth (so eop(out) sits on the last slice of the eop beat), and the bookkeeping register
+   sentBits / bitsPerBeatOut equals counter + 1 in every reachable state, pauses included *)
+Theorem widthReduce_is_reduceWidth : forall r cs, 1 <= r ->
+  holdW (inW (trace (preduceS r) cs)) ->
+  trace (preduceS r) cs = trace (reduceS r) cs /\
+  snd (after (preduceS r) cs) = S (fst (after (preduceS r) cs)) /\ fst (after (preduceS r) cs) < r.
+Proof. exact widthReduce_is_reduceWidth_l. Qed.
+Print Assumptions widthReduce_is_reduceWidth.
+
+Theorem widthReduce_transfers : forall r cs, 1 <= r ->
+  holdW (inW (trace (preduceS r) cs)) ->
+  exists pend, Tout (trace (preduceS r) cs) = unpack r (Tin (trace (preduceS r) cs)) ++ pend /\ length pend < r.
+Proof. exact widthReduce_transfers_l. Qed.
+Print Assumptions widthReduce_transfers.
+
+Theorem widthReduce_safe : forall r cs c, 1 <= r ->
+  holdW (inW (trace (preduceS r) (cs ++ [c]))) ->
+  prefix (Tout (trace (preduceS r) cs) ++ offout (evAt (preduceS r) (after (preduceS r) cs) c))
+         (unpack r (Tin (trace (preduceS r) cs) ++ offin (evAt (preduceS r) (after (preduceS r) cs) c))).
+Proof. exact widthReduce_safe_l. Qed.
+Print Assumptions widthReduce_safe.
+
+Theorem widthReduce_hold : forall r cs,
+  holdW (inW (trace (preduceS r) cs)) -> holdW (outW (trace (preduceS r) cs)).
+Proof. exact widthReduce_hold_l. Qed.
+Print Assumptions widthReduce_hold.
+
+Example widthReduce_pause_before_last_beat :
+  (* a packet of two wide beats, the producer idles two cycles in front of the LAST wide beat while the
+     consumer is ready: eop comes out on the last narrow beat and nothing is truncated *)
+  let b1 := mkBeat true [1%N; 2%N] false 5%N in let b2 := mkBeat true [3%N; 4%N] true 5%N in
+  let idle := mkBeat false [9%N; 9%N] true 0%N in
+  let cs := [mkCyc [] b1 true; mkCyc [] b1 true; mkCyc [] idle true; mkCyc [] idle true; mkCyc [] b2 true; mkCyc [] b2 true] in
+  holdW (inW (trace (preduceS 2) cs)) /\
+  Tout (trace (preduceS 2) cs) = [([1%N], false, 5%N); ([2%N], false, 5%N); ([3%N], false, 5%N); ([4%N], true, 5%N)].
+Proof.
+  cbv zeta. split.
+  - vm_compute. repeat split; intros; try reflexivity; try discriminate; try exact I.
+  - vm_compute; reflexivity.
+Qed.
+
+(* matchWidth from m to t digits is, by construction, the converter chosen at elaboration time *)
+Theorem matchWidth_cases : forall m t,
+  (m < t -> matchD m t = DPExtend m (t / m)) /\ (t < m -> matchD m t = DPReduce (m / t)) /\ (m = t -> matchD m t = DDelay 0).
+Proof. exact matchWidth_cases_l. Qed.
+Print Assumptions matchWidth_cases.
+
+Example packet_chain_example :
+  let d := chainOf [DRegDown; matchD 1 2; DRegReady; matchD 2 1; DRegDecouple] in
+  wfd d /\ gives_hold d = true /\ capd d = 6.
+Proof. cbv zeta. split; [simpl; intuition lia|]. split; reflexivity. Qed.
 
 (* ---------------------------------------------------------------- compose_transfers *)
 (* Safe: delivered ++ offered-out is a prefix of f (accepted ++ offered-in); Lag: at most cap images
